@@ -255,6 +255,8 @@ func (p Package) NewFuncEx(name string, sig *types.Signature, bg Background, has
 	fn := llvm.AddFunction(p.mod, name, t.ll)
 	if bg == InGo {
 		fn.AddFunctionAttr(p.nullPointerIsValidAttr)
+	} else if bg == InC {
+		p.addIntExtAttrs(fn, sig)
 	}
 	if instantiated {
 		fn.SetLinkage(llvm.LinkOnceAnyLinkage)
@@ -265,6 +267,36 @@ func (p Package) NewFuncEx(name string, sig *types.Signature, bg Background, has
 	ret := newFunction(fn, t, p, p.Prog, hasFreeVars)
 	p.fns[name] = ret
 	return ret
+}
+
+// addIntExtAttrs marks integer parameters and results narrower than 32 bits of a
+// C function as signext/zeroext: the C ABI expects the caller (and the callee,
+// for results) to extend them, and without the attributes optimised code passes
+// registers whose upper bits are garbage.
+func (p Package) addIntExtAttrs(fn llvm.Value, sig *types.Signature) {
+	ctx := p.mod.Context()
+	ext := func(t types.Type) string {
+		if b, ok := t.Underlying().(*types.Basic); ok {
+			switch b.Kind() {
+			case types.Int8, types.Int16:
+				return "signext"
+			case types.Uint8, types.Uint16, types.Bool:
+				return "zeroext"
+			}
+		}
+		return ""
+	}
+	params := sig.Params()
+	for i := 0; i < params.Len(); i++ {
+		if k := ext(params.At(i).Type()); k != "" {
+			fn.AddAttributeAtIndex(i+1, ctx.CreateEnumAttribute(llvm.AttributeKindID(k), 0))
+		}
+	}
+	if res := sig.Results(); res.Len() == 1 {
+		if k := ext(res.At(0).Type()); k != "" {
+			fn.AddAttributeAtIndex(0, ctx.CreateEnumAttribute(llvm.AttributeKindID(k), 0))
+		}
+	}
 }
 
 // FuncOf returns a function by name.
